@@ -35,6 +35,8 @@ func checkC01(w *World, r *Report) {
 	c01WsWrite(w, r)
 	c01WriteCounts(w, r)
 	c01WsReadLimit(w, r)
+	r.Rule("R01.13", "records of a multi-record DNS answer are put back in order by a comparator that indexes the slice being sorted (resolvers reorder record sets)", 1)
+	ruleSortComparatorIndexesSortedSlice(w, r, "R01.13", func(p string) bool { return strings.HasPrefix(p, modPath+"/internal/streams/dns") })
 	r.Rule("R01.12", "no codec of the DNS carrier cuts a payload short: ascii85.Decode has worst-case room or its consumed count is checked (a zero-heavy fragment decodes to more bytes than its text is long)", 1)
 	ruleAscii85Room(w, r, "R01.12")
 	r.Rule("R01.11", "a logical connection is piped to the channel whose exact name was negotiated (the stream's bytes reach the target the client asked for)", 1)
